@@ -3,6 +3,7 @@
 //vp:roots github.com/dennwc/varint ./tsdb/encoding ./model/histogram ./tsdb/tombstones ./tsdb/chunks
 //vp:bounds varint lemmas: Encbuf.PutVarint64/PutUvarint64/PutBE64 followed by Decbuf.Varint64/Uvarint64/Be64 for every 64-bit value
 //vp:bounds sample records V1: 2 samples (thorough 3), all refs/timestamps/values arbitrary; V2 (start timestamps): 2 samples (thorough 3) where one varint field at a time (the focus) is arbitrary and the others lie in [-64,64)
+//vp:bounds V2 quick additionally runs 3 samples with all variable-length fields in [-64,64) to exercise the start-timestamp marker cases
 //vp:bounds tombstone records: 1 stone (thorough 2), arbitrary refs and interval bounds; histogram / float histogram records V1 and V2: one histogram with one span and one bucket per side, one varint field at a time arbitrary (others in [-64,64)), floats arbitrary bit patterns; V1 custom-bucket split on 2 histograms
 //vp:assume histograms passed to the encoder have a valid exponential schema (-4..8) or the custom-bucket schema (what Histogram.Validate enforces before a sample reaches the WAL)
 //vp:assume "focus" pinning: every variable-length field is exercised over its full range, but only one at a time per record (positions of later fields shift with it)
@@ -89,9 +90,12 @@ func vpH_C14_samples_v2() {
 	if vpThorough() {
 		hi = 3
 	}
-	n := vpShape("n", 1, hi)
+	n := vpShape("n", 1, 3)
 	nf := 3 * n
-	focus := vpShape("focus", 0, nf-1)
+	focus := -1 // quick, n == 3: no focus field (all variable-length fields small), exercises the ST marker cases
+	if n <= hi {
+		focus = vpShape("focus", 0, nf-1)
+	}
 	ss := make([]RefSample, n)
 	for i := range ss {
 		ss[i] = RefSample{Ref: chunks.HeadSeriesRef(vpUint64()), T: vpInt64(), ST: vpInt64(), V: vpFloat64()}
